@@ -37,6 +37,22 @@ def run(ck, prog):
     ok = len(calls) == 1 and unparse(calls[0]) == "self.SeqObj.set_HTMLColorResiduePalette(%s)" % f.params()[1]
     ck.ob("BIND-api", f.mod.relpath + ":" + f.qual, ok, expected="self.SeqObj.set_HTMLColorResiduePalette(<the argument>)",
           found=[unparse(c) for c in calls], slot="forwards", where=f.loc())
+    # ... and it is the caller's dictionary that is forwarded: a replacement of the parameter on the way is looked at.  Replacing None (not a
+    # dictionary at all) by a default adds a convenience; replacing everything FALSY replaces the empty dictionary as well, which must be rejected
+    par = f.params()[1]
+    for n in ast.walk(f.node):
+        if not (isinstance(n, ast.If) and any(isinstance(a, ast.Assign) and any(isinstance(t, ast.Name) and t.id == par for t in a.targets) for a in ast.walk(n))):
+            continue
+        t = unparse(n.test).replace(" ", "")
+        falsy = t in ("not" + par, "not(%s)" % par, "len(%s)==0" % par, par + "=={}", "notlen(%s)" % par, "notbool(%s)" % par)
+        none_only = t in (par + "isNone", par + "==None")
+        ck.shape(falsy or none_only, "API palette setter: parameter replaced under a test lcsa does not classify (%s)" % unparse(n.test)[:50], f.loc(n))
+        ck.ob("DT-api", f.mod.relpath + ":" + f.qual, none_only, expected="every dictionary the caller passes reaches the validating setter - the empty one included, which must be rejected",
+              found=unparse(n.test), slot="parameter-replaced", where=f.loc(n), note="`not d` is true for {}: an incomplete dictionary is silently turned into the default palette")
+    others = [a for a in ast.walk(f.node) if isinstance(a, (ast.Assign, ast.AugAssign)) and any(isinstance(x, ast.Name) and x.id == par and isinstance(x.ctx, ast.Store)
+                                                                                                for t in (a.targets if isinstance(a, ast.Assign) else [a.target]) for x in ast.walk(t))
+              and not any(isinstance(n, ast.If) and any(a is y for y in ast.walk(n)) for n in ast.walk(f.node))]
+    ck.shape(not others, "API palette setter: parameter rebound unconditionally before it is forwarded", f.loc())
 
 
 def _html(ck, prog):
